@@ -19,6 +19,18 @@ SanitizeOk(value, call, out) ==
        IF cfg.sep = 0 THEN (cfg.max >= 0 => Len(out) <= cfg.max)       \* no separator: length bound only
        ELSE Contract(cfg, value, out) /\ WellFormed(cfg, out)
 
+\* Beyond the listed properties (C16 speaks about a non-alphanumeric separator only): without a separator
+\* the text is kept as it is, lower-cased if asked, an all-digit text loses its leading zeros unless zeros are
+\* kept, and the result is cut to max_length.  Stated for ASCII values; a deviation is reported, not a violation.
+NoSepExpected(cfg, value) ==
+  LET s1 == IF cfg.lower THEN LowerS(value) ELSE value
+      s2 == IF ~cfg.keep /\ AllDigits(s1) THEN StripZ(s1) ELSE s1
+      s3 == IF cfg.max >= 0 THEN Take(s2, cfg.max) ELSE s2
+  IN IF cfg.max >= 0 /\ ~cfg.keep /\ AllDigits(s3) THEN StripZ(s3) ELSE s3
+NoSepDeviates(value, call, out) ==
+  /\ call.kind # "preset" /\ call.sep = 0 /\ AllAscii(value)
+  /\ out # NoSepExpected([sep |-> 0, lower |-> call.lower, keep |-> call.keep, max |-> call.max], value)
+
 \* ---- prefix / prefix_if ----
 PrefixOk(value, n, out) == out = Take(value, n)
 PrefixIfOk(value, p, out) == out = (IF value = <<>> THEN <<>> ELSE p \o value)
